@@ -16,7 +16,7 @@ if [ "${NOBUILD:-0}" != 1 ]; then
 fi
 first=1; rc=0
 for prop in "$@"; do
-  out="$(bin/verifchk -repo "$WT" -prop "$prop" -tier "${TIER:-quick}" -evidence "$EV" -known /verif/KNOWN_FINDINGS.txt 2>&1)"; st=$?
+  out="$(${VERIFCHK:-bin/verifchk} -repo "$WT" -prop "$prop" -tier "${TIER:-quick}" -evidence "$EV" -known /verif/KNOWN_FINDINGS.txt 2>&1)"; st=$?
   if [ $first = 1 ]; then
     if [ $st = 1 ]; then echo "MUTANT-RESULT $(basename "$P") $prop CAUGHT"; echo "$out" | grep -A3 '^VIOLATION' | sed 's/^/    /' | cut -c1-400; else echo "MUTANT-RESULT $(basename "$P") $prop MISSED (exit $st)"; rc=1; fi
     first=0
